@@ -58,3 +58,271 @@ VARIANTS = [
       find='\tannotations[ocispec.AnnotationCreated] = signingTime.Format(time.RFC3339)\n\treturn annotations, nil',
       replace='\tout := make(map[string]string, len(annotations)+2)\n\tfor k, v := range annotations {\n\t\tout[k] = v\n\t}\n\tout[envelope.AnnotationX509ChainThumbprint] = string(val)\n\tout[ocispec.AnnotationCreated] = signingTime.Format(time.RFC3339)\n\treturn out, nil'),
 ]
+
+# ---- shapes accepted after the generalisation of the C11 rules (each: one silent rewrite into the shape, mutants in the shape) ----
+
+IMPORTS = '\t"io"\n\t"mime"\n\t"strings"\n'
+
+def imp(*pkgs):
+    # add standard-library imports to the import block (kept sorted is not required for loading)
+    return (N, IMPORTS, IMPORTS + ''.join('\t"%s"\n' % p for p in pkgs))
+
+RESOLVE_BLOCK = '''	artifactRef := signOpts.ArtifactReference
+	if ref, err := orasRegistry.ParseReference(artifactRef); err == nil {
+		// artifactRef is a valid full reference
+		artifactRef = ref.Reference
+	}
+	artifactManifestDesc, err = repo.Resolve(ctx, artifactRef)
+	if err != nil {
+		return ocispec.Descriptor{}, ocispec.Descriptor{}, fmt.Errorf("failed to resolve reference: %w", err)
+	}
+
+	// artifactRef is a tag or a digest, if it's a digest it has to match
+	// the resolved digest
+	if artifactRef != artifactManifestDesc.Digest.String() {
+		if _, err := digest.Parse(artifactRef); err == nil {
+			// artifactRef is a digest, but does not match the resolved digest
+			return ocispec.Descriptor{}, ocispec.Descriptor{}, fmt.Errorf("user input digest %s does not match the resolved digest %s", artifactRef, artifactManifestDesc.Digest.String())
+		}
+
+		// artifactRef is a tag
+		logger.Warnf("Always sign the artifact using digest(`@sha256:...`) rather than a tag(`:%s`) because tags are mutable and a tag reference can point to a different artifact than the one signed", artifactRef)
+		logger.Infof("Resolved artifact tag `%s` to digest `%v` before signing", artifactRef, artifactManifestDesc.Digest)
+	}
+'''
+
+HELPER_CALL = '''	artifactManifestDesc, err = resolveSignTarget(ctx, logger, repo, signOpts.ArtifactReference)
+	if err != nil {
+		return ocispec.Descriptor{}, ocispec.Descriptor{}, err
+	}
+'''
+
+def helper_fn(parse_arg='artifactRef', parse_extra='', ret='targetDesc'):
+    return '''func resolveSignTarget(ctx context.Context, logger log.Logger, repo registry.Repository, reference string) (ocispec.Descriptor, error) {
+	artifactRef := reference
+	if ref, err := orasRegistry.ParseReference(artifactRef); err == nil {
+		artifactRef = ref.Reference
+	}
+	targetDesc, err := repo.Resolve(ctx, artifactRef)
+	if err != nil {
+		return ocispec.Descriptor{}, fmt.Errorf("failed to resolve reference: %%w", err)
+	}
+	if artifactRef != targetDesc.Digest.String() {
+		if _, err := digest.Parse(%s); err == nil%s {
+			return ocispec.Descriptor{}, fmt.Errorf("user input digest %%s does not match the resolved digest %%s", artifactRef, targetDesc.Digest.String())
+		}
+		logger.Warnf("Always sign the artifact using digest rather than a tag(`:%%s`)", artifactRef)
+		logger.Infof("Resolved artifact tag `%%s` to digest `%%v` before signing", artifactRef, targetDesc.Digest)
+	}
+	return %s, nil
+}
+
+func validateSignArguments(''' % (parse_arg, parse_extra, ret)
+
+VSA = 'func validateSignArguments('
+
+def helper(name, expect, call=HELPER_CALL, **kw):
+    return dict(name=name, expect=expect, edits=[(N, RESOLVE_BLOCK, call), (N, VSA, helper_fn(**kw))])
+
+RESERVED_LOOP = '''		for _, reservedPrefix := range reservedAnnotationPrefixes {
+			if strings.HasPrefix(k, reservedPrefix) {
+				return desc, fmt.Errorf("error adding user metadata: metadata key %v has reserved prefix %v", k, reservedPrefix)
+			}
+		}
+'''
+
+def index_loop(start='0', skip='continue'):
+    return '''		for i := %s; i < len(reservedAnnotationPrefixes); i++ {
+			if !strings.HasPrefix(k, reservedAnnotationPrefixes[i]) {
+				%s
+			}
+			return desc, fmt.Errorf("error adding user metadata: metadata key %%v has reserved prefix %%v", k, reservedAnnotationPrefixes[i])
+		}
+''' % (start, skip)
+
+def index_func(cond='i >= 0', pred='strings.HasPrefix(k, reservedPrefix)', lst='reservedAnnotationPrefixes[:]'):
+    return '''		if i := slices.IndexFunc(%s, func(reservedPrefix string) bool {
+			return %s
+		}); %s {
+			return desc, fmt.Errorf("error adding user metadata: metadata key %%v has reserved prefix", k)
+		}
+''' % (lst, pred, cond)
+
+EXISTING = '''		if _, ok := desc.Annotations[k]; ok {
+			return desc, fmt.Errorf("error adding user metadata: metadata key %v is already present in the target artifact", k)
+		}
+		annotations[k] = v
+'''
+
+def existing_inverted(cond='!ok'):
+    return '''		if _, ok := desc.Annotations[k]; %s {
+			annotations[k] = v
+			continue
+		}
+		return desc, fmt.Errorf("error adding user metadata: metadata key %%v is already present in the target artifact", k)
+''' % cond
+
+COPY_LOOP = '''	for k, v := range desc.Annotations {
+		annotations[k] = v
+	}
+'''
+
+DIGEST_IF = '''	if artifactRef != artifactManifestDesc.Digest.String() {
+		if _, err := digest.Parse(artifactRef); err == nil {
+'''
+
+def digest_typed(validate_arg='artifactRef'):
+    return '''	if digest.Digest(artifactRef) != artifactManifestDesc.Digest {
+		if digest.Digest(%s).Validate() == nil {
+''' % validate_arg
+
+DIGEST_WHOLE = RESOLVE_BLOCK[RESOLVE_BLOCK.index('\tif artifactRef != artifactManifestDesc.Digest.String() {'):]
+
+def digest_switch(arm2='notDigestErr == nil'):
+    return '''	_, notDigestErr := digest.Parse(artifactRef)
+	switch {
+	case artifactRef == artifactManifestDesc.Digest.String():
+		// artifactRef is the resolved digest
+	case %s:
+		return ocispec.Descriptor{}, ocispec.Descriptor{}, fmt.Errorf("user input digest %%s does not match the resolved digest %%s", artifactRef, artifactManifestDesc.Digest.String())
+	default:
+		logger.Warnf("Always sign the artifact using digest rather than a tag(`:%%s`)", artifactRef)
+	}
+''' % arm2
+
+HEX_LINE = '\t\tthumbprints = append(thumbprints, hex.EncodeToString(checkSum[:]))\n'
+NO_HEX = (N, '\t"encoding/hex"\n', '')
+
+def sprintf(fmtstr='%x', arg='checkSum', extra=''):
+    return '\t\tthumbprints = append(thumbprints, fmt.Sprintf("%s", %s))\n%s' % (fmtstr, arg, extra)
+
+# in-place merge (pointer to a copy of the resolved descriptor that the helper fills in)
+MERGE_CALL = '''	descToSign, err := addUserMetadataToDescriptor(ctx, artifactManifestDesc, signOpts.UserMetadata)
+	if err != nil {
+		return ocispec.Descriptor{}, ocispec.Descriptor{}, err
+	}
+'''
+INPLACE_CALL = '''	descToSign := artifactManifestDesc
+	if err := addUserMetadata(ctx, &descToSign, signOpts.UserMetadata); err != nil {
+		return ocispec.Descriptor{}, ocispec.Descriptor{}, err
+	}
+'''
+MERGE_FN = '''func addUserMetadataToDescriptor(ctx context.Context, desc ocispec.Descriptor, userMetadata map[string]string) (ocispec.Descriptor, error) {
+	logger := log.GetLogger(ctx)
+	if len(userMetadata) == 0 {
+		return desc, nil
+	}
+
+	// never write into the annotations map of the descriptor handed in
+	annotations := make(map[string]string, len(desc.Annotations)+len(userMetadata))
+''' + COPY_LOOP + '''	for k, v := range userMetadata {
+		logger.Debugf("Adding metadata %v=%v to annotations", k, v)
+''' + RESERVED_LOOP + EXISTING + '''	}
+	desc.Annotations = annotations
+	return desc, nil
+}
+'''
+
+def inplace_fn(empty='len(userMetadata) == 0', make='make(map[string]string, len(desc.Annotations)+len(userMetadata))', copy=COPY_LOOP, extra=''):
+    return '''func addUserMetadata(ctx context.Context, desc *ocispec.Descriptor, userMetadata map[string]string) error {
+	logger := log.GetLogger(ctx)
+	if %s {
+		return nil
+	}
+	annotations := %s
+%s	for k, v := range userMetadata {
+		logger.Debugf("Adding metadata %%v=%%v to annotations", k, v)
+		for _, reservedPrefix := range reservedAnnotationPrefixes {
+			if strings.HasPrefix(k, reservedPrefix) {
+				return fmt.Errorf("error adding user metadata: metadata key %%v has reserved prefix %%v", k, reservedPrefix)
+			}
+		}
+		if _, ok := desc.Annotations[k]; ok {
+			return fmt.Errorf("error adding user metadata: metadata key %%v is already present in the target artifact", k)
+		}
+		annotations[k] = v
+	}
+%s	desc.Annotations = annotations
+	return nil
+}
+''' % (empty, make, copy, extra)
+
+BLOB_CALL = '\t\treturn addUserMetadataToDescriptor(ctx, targetDesc, userMetadata)\n'
+BLOB_INPLACE = '''		if err := addUserMetadata(ctx, &targetDesc, userMetadata); err != nil {
+			return targetDesc, err
+		}
+		return targetDesc, nil
+'''
+
+def inplace(name, expect, call=INPLACE_CALL, **kw):
+    return dict(name=name, expect=expect, edits=[(N, MERGE_CALL, call), (N, MERGE_FN, inplace_fn(**kw)), (N, BLOB_CALL, BLOB_INPLACE)])
+
+GEN_SIG = 'func generateAnnotations(signerInfo *signature.SignerInfo, annotations map[string]string) (map[string]string, error) {'
+GEN_SIG_SWAPPED = 'func generateAnnotations(annotations map[string]string, signerInfo *signature.SignerInfo) (map[string]string, error) {'
+GEN_CALL = 'annotations, err := generateAnnotations(signerInfo, pluginAnnotations)'
+GEN_CALL_SWAPPED = 'annotations, err := generateAnnotations(pluginAnnotations, signerInfo)'
+SWAP = [(N, GEN_SIG, GEN_SIG_SWAPPED), (N, GEN_CALL, GEN_CALL_SWAPPED)]
+
+PUSH = '\t_, sigManifestDesc, err = repo.PushSignature(ctx, signOpts.SignatureMediaType, sig, artifactManifestDesc, annotations)\n'
+
+VARIANTS += [
+ # S1: Resolve and the digest check live in a helper that returns the resolved descriptor
+ helper('helper-resolve', 'silent'),
+ helper('helper-resolve-digest-check-conditional', 'flagged(gate/digest-pinning)', parse_extra=' && logger != nil'),
+ helper('helper-resolve-digest-check-on-input', 'flagged(gate/digest-pinning)', parse_arg='reference'),
+ helper('helper-resolve-error-ignored', 'flagged(gate/resolve)',
+        call='\tartifactManifestDesc, err = resolveSignTarget(ctx, logger, repo, signOpts.ArtifactReference)\n\tif err != nil {\n\t\tlogger.Warn(err)\n\t}\n'),
+ helper('helper-resolve-returns-trimmed-descriptor', 'flagged(provenance/push-subject)',
+        ret='ocispec.Descriptor{MediaType: targetDesc.MediaType, Digest: targetDesc.Digest, Size: targetDesc.Size}'),
+ helper('helper-resolve-called-twice', 'flagged(repository/only-resolve-and-push)',
+        call='\tif _, err := resolveSignTarget(ctx, logger, repo, signOpts.ArtifactReference); err != nil {\n\t\treturn ocispec.Descriptor{}, ocispec.Descriptor{}, err\n\t}\n' + HELPER_CALL),
+ # S2: the reserved list is walked by an index loop with an inverted test; the existing-key test is inverted
+ dict(name='reserved-index-loop', file=N, expect='silent', find=RESERVED_LOOP, replace=index_loop()),
+ dict(name='reserved-index-loop-from-1', file=N, expect='flagged(merge/reserved-prefix)', find=RESERVED_LOOP, replace=index_loop(start='1')),
+ dict(name='reserved-index-loop-break', file=N, expect='flagged(merge/reserved-prefix)', find=RESERVED_LOOP, replace=index_loop(skip='break')),
+ dict(name='existing-key-inverted', file=N, expect='silent', find=EXISTING, replace=existing_inverted()),
+ dict(name='existing-key-inverted-weakened', file=N, expect='flagged(merge/existing-key)', find=EXISTING, replace=existing_inverted('!ok || v != ""')),
+ dict(name='digest-switch', file=N, expect='silent', find=DIGEST_WHOLE, replace=digest_switch()),
+ dict(name='digest-switch-arm-weakened', file=N, expect='flagged(gate/digest-pinning)', find=DIGEST_WHOLE, replace=digest_switch('notDigestErr == nil && len(signOpts.UserMetadata) > 0')),
+ # S3: digests compared as digest.Digest values, Validate() instead of Parse()
+ dict(name='digest-typed-compare', file=N, expect='silent', find=DIGEST_IF, replace=digest_typed()),
+ dict(name='digest-typed-validate-on-input', file=N, expect='flagged(gate/digest-pinning)', find=DIGEST_IF, replace=digest_typed('signOpts.ArtifactReference')),
+ # S4: maps.Copy instead of the copy loop
+ dict(name='maps-copy-annotations', expect='silent', edits=[imp('maps'), (N, COPY_LOOP, '\tmaps.Copy(annotations, desc.Annotations)\n')]),
+ dict(name='maps-copy-into-descriptor', expect='flagged(ownership/)', edits=[imp('maps'), (N, COPY_LOOP, '\tmaps.Copy(annotations, desc.Annotations)\n\tif desc.Annotations != nil {\n\t\tmaps.Copy(desc.Annotations, userMetadata)\n\t}\n')]),
+ dict(name='maps-copy-metadata-aliased', expect='flagged(ownership/)', edits=[imp('maps'),
+      (N, '\tannotations := make(map[string]string, len(desc.Annotations)+len(userMetadata))\n' + COPY_LOOP, '\tannotations := userMetadata\n\tmaps.Copy(annotations, desc.Annotations)\n')]),
+ dict(name='maps-copy-wrong-source', expect='flagged(merge/fresh-union)', edits=[imp('maps'), (N, COPY_LOOP, '\tmaps.Copy(annotations, userMetadata)\n')]),
+ # S5: fmt.Sprintf("%x", sum) instead of hex.EncodeToString(sum[:])
+ dict(name='thumbprint-sprintf-x', expect='silent', edits=[NO_HEX, (N, HEX_LINE, sprintf())]),
+ dict(name='thumbprint-sprintf-upper', expect='flagged(annotations/thumbprints)', edits=[NO_HEX, (N, HEX_LINE, sprintf('%X'))]),
+ dict(name='thumbprint-sprintf-of-certificate', expect='flagged(annotations/thumbprints)', edits=[NO_HEX, (N, HEX_LINE, sprintf('%x', 'cert.Raw', '\t\t_ = checkSum\n'))]),
+ # S6: the merge fills in a copy of the resolved descriptor through a pointer
+ inplace('merge-in-place', 'silent'),
+ inplace('merge-in-place-on-resolved-descriptor', 'flagged(provenance/push-subject)',
+         call='\tif err := addUserMetadata(ctx, &artifactManifestDesc, signOpts.UserMetadata); err != nil {\n\t\treturn ocispec.Descriptor{}, ocispec.Descriptor{}, err\n\t}\n\tdescToSign := artifactManifestDesc\n'),
+ inplace('merge-in-place-copy-overwritten', 'flagged(provenance/signed-descriptor)', call=INPLACE_CALL + '\tdescToSign = artifactManifestDesc\n'),
+ inplace('merge-in-place-writes-shared-map', 'flagged(ownership/)', make='desc.Annotations', copy='\tif annotations == nil {\n\t\tannotations = map[string]string{}\n\t}\n'),
+ inplace('merge-in-place-touches-media-type', 'flagged(merge/)', extra='\tdesc.MediaType = strings.TrimSpace(desc.MediaType)\n'),
+ inplace('merge-in-place-skips-large-metadata', 'flagged(merge/result)', empty='len(userMetadata) == 0 || len(userMetadata) > 16'),
+ # S7: the annotation generator's parameters in the other order
+ dict(name='generator-params-swapped', expect='silent', edits=SWAP),
+ dict(name='generator-params-swapped-created-now', expect='flagged(annotations/created)', edits=SWAP + [
+      (N, 'annotations[ocispec.AnnotationCreated] = signingTime.Format(time.RFC3339)', 'annotations[ocispec.AnnotationCreated] = time.Now().Format(time.RFC3339)\n\t_ = signingTime')]),
+ dict(name='generator-params-swapped-thumbprint-of-tbs', expect='flagged(annotations/thumbprints)', edits=SWAP + [
+      (N, 'checkSum := sha256.Sum256(cert.Raw)', 'checkSum := sha256.Sum256(cert.RawTBSCertificate)')]),
+ # S8: slices.IndexFunc with a predicate closure that captures the key
+ dict(name='reserved-indexfunc', expect='silent', edits=[imp('slices'), (N, RESERVED_LOOP, index_func())]),
+ dict(name='reserved-indexfunc-first-element-passes', expect='flagged(merge/reserved-prefix)', edits=[imp('slices'), (N, RESERVED_LOOP, index_func(cond='i > 0'))]),
+ dict(name='reserved-indexfunc-arguments-swapped', expect='flagged(merge/reserved-prefix)', edits=[imp('slices'), (N, RESERVED_LOOP, index_func(pred='strings.HasPrefix(reservedPrefix, k)'))]),
+ dict(name='reserved-indexfunc-tail-of-list', expect='flagged(merge/reserved-prefix)', edits=[imp('slices'), (N, RESERVED_LOOP, index_func(lst='reservedAnnotationPrefixes[1:]'))]),
+ dict(name='reserved-indexfunc-existing-check-on-value', expect='flagged(merge/existing-key)', edits=[imp('slices'), (N, RESERVED_LOOP, index_func()),
+      (N, '\t\tif _, ok := desc.Annotations[k]; ok {\n', '\t\tif _, ok := desc.Annotations[v]; ok {\n')]),
+ # clauses the re-anchored rules now decide on values (base shape)
+ dict(name='resolved-descriptor-field-cleared-before-push', file=N, expect='flagged(provenance/push-subject)', find=PUSH, replace='\tartifactManifestDesc.Annotations = nil\n' + PUSH),
+ dict(name='subject-variable-reassigned-to-signed-descriptor', file=N, expect='flagged(provenance/push-subject)', find=PUSH, replace='\tartifactManifestDesc = descToSign\n' + PUSH),
+ dict(name='merge-skips-large-metadata', file=N, expect='flagged(merge/result)',
+      find='\tif len(userMetadata) == 0 {\n\t\treturn desc, nil\n\t}\n', replace='\tif len(userMetadata) == 0 || len(userMetadata) > 16 {\n\t\treturn desc, nil\n\t}\n'),
+ dict(name='merge-returns-rebuilt-descriptor', file=N, expect='flagged(merge/)',
+      find='\tdesc.Annotations = annotations\n\treturn desc, nil\n', replace='\treturn ocispec.Descriptor{MediaType: desc.MediaType, Digest: desc.Digest, Size: desc.Size, Annotations: annotations}, nil\n'),
+]
